@@ -75,8 +75,9 @@ def coq_eval(pid, imports, typ, exprs):
         return None
     out = p.stdout
     body = out[out.index("= ") + 2:out.rindex(": list")]
-    body = body.replace("%N", "").replace(";", ",").replace("true", "True").replace("false", "False")
-    return ast.literal_eval(" ".join(body.split()))
+    body = " ".join(body.split())
+    body = body.replace("%N", "").replace(";", ",").replace("true", "True").replace("false", "False").replace("Some ", "")
+    return ast.literal_eval(body)
 
 
 def coq_str(x):
@@ -4054,6 +4055,27 @@ def check_C13(res):
                               {"kind": "pure", "case": "M " + hx(l), "line": l, "impl": a, "grammar": exp, "model": b}, found=True)
         elif a != b:
             tie_fail += 1
+    # A2. the extraction itself: a sample of lines is tokenised by Coq's own evaluator on the compiled theories (vm_compute) and
+    # compared with what the extracted program printed
+    ks = sorted(random.Random(res.seed + 1301).sample(range(len(lines)), min(len(lines), 250 if res.tier == "quick" else 2000)))
+    kv = coq_eval("C13t", "Str Parse", "option (option str * str * list str)",
+                  ["match tokenize %s with inl m => Some (m_source m, m_command m, m_params m) | inr _ => None end" % coq_lit(lines[k]) for k in ks])
+    kernel_tok = 0
+    if kv is None:
+        res.violation("the tokenizer could not be evaluated inside Coq (cases file does not compile)", {"kind": "tie"}, found=False)
+    else:
+        for k, v in zip(ks, kv):
+            kernel_tok += 1
+            if v is None:
+                same = mm[k].startswith("ERR ")
+            else:
+                src, cmd, params = v
+                tup = ("OK", None if src is None else "".join(map(chr, src)), "".join(map(chr, cmd)), ["".join(map(chr, x)) for x in params])
+                same = mm[k].startswith("OK ") and json.loads(mm[k][3:]) == rust_debug_message(tup)
+            if not same:
+                res.violation("the extracted program and Coq's own evaluation of the tokenizer disagree on %r: extracted %s" % (lines[k], mm[k][:200]), {"kind": "tie", "line": lines[k]}, found=False)
+                break
+    res.coverage["evaluated_inside_coq"] = {"lines_tokenised": kernel_tok}
     # B. command parser: classification (421 / 461 / executed-or-specific) and the tie
     pl = ["P " + hx(l) for l in lines]
     pi, pm = run_pure(pl), run_pure(pl, model=True)
